@@ -211,3 +211,10 @@ package mem
 //@   ensures "dir" implies(f.mode&hackpadfs.ModeDir != 0, err == nil)
 //@   ensures "nonempty" [C03 C01] implies(err == nil, iff(len(names) > 0, exists(k, dom(f.store.records), isChildKey(k, f.path))))
 //@   nopanic
+
+// ---- the in-memory file system (fs.go) ----
+//@ func NewFS() (fs *FS, err error)
+//@   props C01 C03
+//@   ensures "root" [C03] err == nil && fs != nil && fresh(fs) && fs.kv != nil && keyvalue.isMem(fs.kv) && keyvalue.fsInv(fs.kv) && keyvalue.treeInv(fs.kv) &&
+//@                     forall(k, string, implies(in(k, dom(keyvalue.ms(fs.kv).records)), k == "."))
+//@   nopanic
